@@ -40,7 +40,7 @@ def exhaustive(tier):
 
 
 def required(tier):
-    return ["first_import", "ordered_pair", "longer_order"]
+    return ["first_import", "ordered_pair", "longer_order", "started_with_python_-c", "started_as_script_file"]
 
 
 def all_orders(tier: str, seed: int) -> list[list[str]]:
@@ -61,8 +61,17 @@ def shards(tier, seed):
     return [{"name": f"orders-{i}", "orders": orders[i::n], "offset": i, "stride": n} for i in range(n)]
 
 
-def run_child(steps, mods, timeout=120):
-    p = subprocess.run([env.PY, "-X", "faulthandler", CHILD, env.REPO, json.dumps({"steps": steps, "modules": mods})],
+_SRC = None
+
+
+def run_child(steps, mods, timeout=120, dash_c=True):
+    # `python -c <program>`: the interpreter has no main FILE (no __main__.__file__), exactly like `python -c 'import chartparse.x'`;
+    # every fourth-or-so order is also run as a script file
+    global _SRC
+    if _SRC is None:
+        _SRC = open(CHILD).read()
+    head = [env.PY, "-X", "faulthandler"] + (["-c", _SRC] if dash_c else [CHILD])
+    p = subprocess.run(head + [env.REPO, json.dumps({"steps": steps, "modules": mods})],
                        capture_output=True, text=True, timeout=timeout,
                        env={"PYTHONHASHSEED": "0", "PYTHONDONTWRITEBYTECODE": "1", "PATH": os.environ.get("PATH", "")},
                        cwd="/")
@@ -95,8 +104,10 @@ def judge(order, idx, mods, ref, rec):
             if name is None:
                 form = "import"
         steps.append([form, m, name])
-    out = run_child(steps, mods)
-    case = {"steps": steps, "modules": mods}
+    dash_c = idx % 4 != 3
+    out = run_child(steps, mods, dash_c=dash_c)
+    case = {"steps": steps, "modules": mods, "dash_c": dash_c}
+    rec.cls("started_with_python_-c" if dash_c else "started_as_script_file")
     rec.ev()
     rec.key(steps)
     rec.cls("first_import" if len(order) == 1 else "ordered_pair" if len(order) == 2 else "longer_order")
@@ -148,7 +159,7 @@ def replay(case, rec):
     ref = reference(mods)
     if ref.get("crashed") or ref.get("failed"):
         ref = None
-    out = run_child(case["steps"], mods)
+    out = run_child(case["steps"], mods, dash_c=case.get("dash_c", True))
     rec.ev()
     if out.get("crashed"):
         rec.violation("interpreter-crashed", str(out), case, "import-crash")
